@@ -425,6 +425,7 @@ package session
 //@     set tkN = tkN + 1
 //@   call sendWithErrorCheck#1:
 //@     assert[C08] @heartbeat mrole(arg1) == 4 && mTestReqID(arg1) == ""
+//@     assert[C08,C10,C20] @ownmessage thisiter(arg1)
 //@     set fireN = fireN + 1
 //@   loop 1:
 //@     modifies outgoingMsgTimer.lastUpdate
@@ -452,6 +453,7 @@ package session
 //@     assert[C09] @waiting arg1 == WaitingTestReqAnswer
 //@   call sendWithErrorCheck#1:
 //@     assert[C09] @probe mrole(arg1) == 5 && s.state == WaitingTestReqAnswer
+//@     assert[C09,C10,C20] @ownmessage thisiter(arg1)
 //@     set fireN = fireN + 1
 //@   loop 1:
 //@     modifies incomingMsgTimer.lastUpdate
